@@ -304,6 +304,10 @@ fn gen_family(rng: &mut Rng, c: &mut Case, fam: &str, be: bool) {
             let (mut r, mut rl, mut l, mut ll, first) = asm::lists(rng, be, asz, d64, version as u16);
             c.set("list_off", if version >= 5 { first as i64 } else { 0 });
             note.push_str("asm");
+            if version <= 4 && c.knob("dwo", 0) != 0 && !rng.chance(1, 4) {
+                l = asm::gnu_loc(rng, be, asz);
+                note.push_str("+gnuloc");
+            }
             if rng.chance(1, 12) && !be {
                 let fx = gen_::fixture("debug_ranges");
                 let a = (rng.usize(fx.len() / 16 - 64)) * 16;
@@ -340,7 +344,7 @@ fn gen_family(rng: &mut Rng, c: &mut Case, fam: &str, be: bool) {
         "info" => {
             let asz = c.knob("addr_size", 8) as u8;
             c.set("cache", rng.below(3) as i64);
-            c.set("dwo", rng.chance(1, 5) as i64);
+            c.set("dwo", rng.chance(1, 3) as i64);
             let mode = rng.below(10);
             let mut secs: std::collections::BTreeMap<String, Vec<u8>> = Default::default();
             if mode < 4 {
@@ -368,6 +372,13 @@ fn gen_family(rng: &mut Rng, c: &mut Case, fam: &str, be: bool) {
                 secs.insert("debug_ranges".into(), gen_::fixture("debug_ranges")[..2048].to_vec());
                 secs.insert("debug_loc".into(), gen_::fixture("debug_loc")[..2048].to_vec());
             }
+            if secs.is_empty() && mode >= 8 {
+                note.push_str("asmlists");
+                secs = asm::info_lists(rng, be, asz, c.knob("dwo", 0) != 0);
+                let (s, o) = asm::strs(rng, be);
+                secs.insert("debug_str".into(), s);
+                secs.insert("debug_str_offsets".into(), o);
+            }
             if secs.is_empty() {
                 note.push_str("asm");
                 let (ab, info, types) = asm::info(rng, be, asz);
@@ -383,7 +394,7 @@ fn gen_family(rng: &mut Rng, c: &mut Case, fam: &str, be: bool) {
                 let (r, rl, l, ll, _) = asm::lists(rng, be, asz, d64l, 5);
                 secs.insert("debug_ranges".into(), r);
                 secs.insert("debug_rnglists".into(), rl);
-                secs.insert("debug_loc".into(), l);
+                secs.insert("debug_loc".into(), if c.knob("dwo", 0) != 0 && rng.bool() { asm::gnu_loc(rng, be, asz) } else { l });
                 secs.insert("debug_loclists".into(), ll);
                 secs.insert("debug_line".into(), asm::line_program(rng, be, asz));
                 secs.insert("debug_macinfo".into(), asm::macros(rng, be, false));
